@@ -1,5 +1,6 @@
 import BddProofs.Sem
 import BddProofs.Refine
+import BddProofs.LiveCountT
 import BddModel.Bdd
 /-! The manager state as the operation proofs see it: the node view `St.nodes`, the invariant
 `Good`, the cache lemmas (a lookup returns only what was inserted under that very key) and
@@ -208,6 +209,8 @@ structure Good (s : St) : Prop where
   cache : ∀ k r, s.cache.lookup k = some r → Fact s.nodes k r
   /-- cell 1 (the terminal) holds the default node: the code reads variable 0 for a terminal handle -/
   term1 : (s.node 1).var = 0
+  /-- the live count is exact: `real_size` = number of occupied cells `≥ 1` -/
+  rs : RS s.storage
 
 theorem Good.bnd {s : St} (_hg : Good s) : ∀ i n, s.nodes i = some n → 2 ≤ i ∧ i < s.next := by
   intro i n h
@@ -246,7 +249,7 @@ theorem St.cacheGet_lookup (s : St) (k k' : OpKey) : (s.cacheGet k).1.cache.look
   Cache.get_fst_lookup _ _ _
 
 theorem Good.cacheGet {s : St} (hg : Good s) (k : OpKey) : Good (s.cacheGet k).1 :=
-  ⟨hg.wf, hg.tinv, hg.inv, hg.var0, fun k' r h => hg.cache k' r (by rw [St.cacheGet_lookup] at h; exact h), hg.term1⟩
+  ⟨hg.wf, hg.tinv, hg.inv, hg.var0, fun k' r h => hg.cache k' r (by rw [St.cacheGet_lookup] at h; exact h), hg.term1, hg.rs⟩
 
 theorem Good.cacheHit {s : St} (hg : Good s) {k r} (h : (s.cacheGet k).2 = some r) : Fact s.nodes k r :=
   hg.cache k r (by rw [St.cacheGet_snd] at h; exact h)
@@ -254,7 +257,7 @@ theorem Good.cacheHit {s : St} (hg : Good s) {k r} (h : (s.cacheGet k).2 = some 
 theorem St.cacheInsert_nodes (s : St) (k : OpKey) (r : Ref) : (s.cacheInsert k r).nodes = s.nodes := rfl
 
 theorem Good.cacheInsert {s : St} (hg : Good s) {k r} (hf : Fact s.nodes k r) : Good (s.cacheInsert k r) := by
-  refine ⟨hg.wf, hg.tinv, hg.inv, hg.var0, ?_, hg.term1⟩
+  refine ⟨hg.wf, hg.tinv, hg.inv, hg.var0, ?_, hg.term1, hg.rs⟩
   intro k2 r2 hc
   rcases Cache.lookup_insert s.cache k r k2 hc with ⟨rfl, rfl⟩ | h
   · exact hf
@@ -267,7 +270,8 @@ theorem put_spec {s : St} (hg : Good s) (n : Node) {s' i} (h : s.put n = .ok (s'
     (∀ j m, s'.nodes j = some m → s.nodes j = some m ∨ (j = i ∧ m = n)) ∧
     2 ≤ i ∧ s'.next = s.next ∧
     (s.nodes i = some n ∨ ∀ j, s.nodes j ≠ some n) ∧
-    s'.storage.Wf ∧ (∃ chains, TInv s'.storage.bhash s'.storage.toTab chains) ∧ s'.node 1 = s.node 1 := by
+    s'.storage.Wf ∧ (∃ chains, TInv s'.storage.bhash s'.storage.toTab chains) ∧ s'.node 1 = s.node 1 ∧
+    RS s'.storage := by
   unfold St.put at h
   cases hp : s.storage.put n with
   | error e => rw [hp] at h; cases h
@@ -277,10 +281,11 @@ theorem put_spec {s : St} (hg : Good s) (n : Node) {s' i} (h : s.put n = .ok (s'
     simp only [Except.ok.injEq, Prod.mk.injEq] at h
     obtain ⟨rfl, rfl⟩ := h
     obtain ⟨ch, hI⟩ := hg.tinv
+    have hrs' : RS t := Table.put_RS hg.wf hI hg.rs hp
     obtain ⟨hw', _, hsz, _, hcase⟩ := Table.put_spec hg.wf hI hp
     rcases hcase with ⟨h2, ho, hv, rfl⟩ | ⟨hnone, h2, hfree, hocc, hval, hI'⟩
     · have hn : s.nodes k = some n := by rw [St.nodes_of h2 ho, hv]
-      exact ⟨hn, Sub.refl _, rfl, rfl, fun j m hj => Or.inl hj, h2, rfl, Or.inl hn, hg.wf, ⟨ch, hI⟩, rfl⟩
+      exact ⟨hn, Sub.refl _, rfl, rfl, fun j m hj => Or.inl hj, h2, rfl, Or.inl hn, hg.wf, ⟨ch, hI⟩, rfl, hrs'⟩
     · have hnodes : ∀ j, (St.nodes { s with storage := t }) j =
           if j = k then some n else s.nodes j := by
         intro j
@@ -292,7 +297,7 @@ theorem put_spec {s : St} (hg : Good s) (n : Node) {s' i} (h : s.put n = .ok (s'
       have hnode1 : St.node { s with storage := t } 1 = s.node 1 := by
         show rd t.vals 1 = rd s.storage.vals 1
         rw [hval]; simp only; rw [if_neg (by omega)]
-      refine ⟨by rw [hnodes]; simp, ?_, rfl, rfl, ?_, h2, by simp [St.next, hsz], ?_, hw', hI', hnode1⟩
+      refine ⟨by rw [hnodes]; simp, ?_, rfl, rfl, ?_, h2, by simp [St.next, hsz], ?_, hw', hI', hnode1, hrs'⟩
       · intro j m hj
         have hjk : j ≠ k := by
           intro e; subst e
